@@ -45,6 +45,7 @@ TRUSTED = [
     "std BufWriter/File/OpenOptions and parking_lot::Mutex are modelled (BufW.v, os_open, the lock of Sched.v), not verified; kind 2 cross-checks BufW.v against std's BufWriter",
     "that FileAppender::append holds ONE guard across encode+flush is established behaviourally (kind 1), the theorem assumes the Acquire..Release block structure",
 ]
+RELEASE_TOO = True          # the cases also run through the release-profile harness (see ./check)
 EXHAUSTIVE = {"quick": False, "thorough": False}
 IMPL_TIMEOUT = 600
 
